@@ -36,11 +36,16 @@ import (
 	"github.com/prometheus/prometheus/storage"
 	"github.com/prometheus/prometheus/storage/remote"
 	"github.com/prometheus/prometheus/tsdb"
+	"github.com/prometheus/prometheus/tsdb/wlog"
 
 	"verif/internal/core"
 	"verif/internal/gen"
 	"verif/internal/tsdbx"
 )
+
+// kindBackfill: expected finding (DESIGN §10 item 13).  Predicate: the only undelivered samples of
+// the case are samples whose timestamp is <= the wall clock taken before the watcher was started.
+const kindBackfill = "undelivered-sample-has-timestamp-not-after-watcher-start"
 
 func init() {
 	core.Register(&core.Prop{
@@ -48,8 +53,8 @@ func init() {
 		Title:     "Remote write delivers every sample in order despite resharding and retries",
 		Level:     "fault_enumeration",
 		Technique: "runtime monitor of the real remote-write stack (tsdb.DB WAL → WAL watcher → queue manager → HTTP client) against a fault-injecting receiver; offline conservation/order oracle over producer and consumer logs",
-		LevelText: "Per case a real tsdb.DB (64 KiB WAL segments, exemplar storage) writes a generated history: pre-start data (must only provide series records), then float/integer-histogram/float-histogram/custom-bucket samples and exemplars on 6-14 series plus churn series with long labels (segment rotations), 0-3 head compactions (whole head or a prefix, so that part of the series survive in the checkpoint) that rotate/checkpoint/truncate the WAL while the watcher tails it, every sample stamped with the wall clock (strictly increasing) and carrying a unique value. remote.NewWriteStorage + ApplyConfig (protocol 1.0 or 2.0, capacity/batch sizes 2-20, BatchSendDeadline 50 ms, 1-5 shards, external labels, write relabeling with drop/replace/labeldrop rules) sends to an httptest receiver that decodes every request and, by a PRNG schedule, answers 2xx, 500/503 (at most 3 times per request body), 429 with and without retry_on_http_429, 400, and delays answers; 0-6 reshard requests are injected through WriteStorage.VerifReshard at PRNG-chosen points. Offline oracle over the producer log (append order per series) and the consumer log (accepted requests in arrival order): every received label set is the hand-computed 'series labels + external labels where absent, then relabel rules' of a kept series; no item of a dropped series arrives; per kept series the first occurrences of the received post-start samples are exactly the appended ones in append order, minus exactly those contained in requests the receiver rejected unrecoverably (and custom-bucket histograms under 1.0, which the sender documents as unsupported); the same for exemplars; in runs without any failed send no item arrives twice. Quiescence is logical (barrier sample received, pending gauges 0, no request in flight); a wall-clock watchdog only makes a case inconclusive. Held on the observed schedules only; thread interleavings are whatever the scheduler (and -race in the race variant) produced.",
-		LevelNote: "Fault points are PRNG-sampled, not exhaustively enumerated. Trusted: the receiver's own log; relabel semantics of the three simple rule shapes are computed by hand. Reductions: timestamps enter only as values (the watcher's 'after start' test is by timestamp, so everything is stamped 'now', see DESIGN §10 item 13 – the backfill side class is not driven); head compactions are issued only at logical quiescence (a watcher that lags behind a WAL truncation loses data by design); sample_age_limit is off; duplicates are only forbidden in failure-free runs (statement); metadata delivery, the queue's failed/dropped counters (recorded in the evidence, used only, in cases that ran longer than 55 s, to tell a hard shutdown from a loss) and pre-start exemplars are not judged; the failure bursts stay far below the 2 min flush deadline, so hard shutdowns do not occur.",
+		LevelText: "Per case a real tsdb.DB (64 KiB WAL segments, exemplar storage) writes a generated history: pre-start data (must only provide series records), then float/integer-histogram/float-histogram/custom-bucket samples and exemplars on 6-14 series plus churn series with long labels (segment rotations), 0-4 head compactions (whole head or a prefix, so that part of the series survive in the checkpoint) that rotate/checkpoint/truncate the WAL while the watcher tails it, every sample stamped with the wall clock (strictly increasing) and carrying a unique value. remote.NewWriteStorage + ApplyConfig (protocol 1.0 or 2.0, capacity/batch sizes 2-20, BatchSendDeadline 50 ms, 1-5 shards, external labels, write relabeling with drop/replace/labeldrop rules) sends to an httptest receiver that decodes every request and, by a PRNG schedule, answers 2xx, 500/503 (at most 3 times per request body), 429 with and without retry_on_http_429, 400, and delays answers; 0-6 reshard requests are injected through WriteStorage.VerifReshard at PRNG-chosen points. Offline oracle over the producer log (append order per series) and the consumer log (accepted requests in arrival order): every received label set is the hand-computed 'series labels + external labels where absent, then relabel rules' of a kept series; no item of a dropped series arrives; per kept series the first occurrences of the received post-start samples are exactly the appended ones in append order, minus exactly those contained in requests the receiver rejected unrecoverably (and custom-bucket histograms under 1.0, which the sender documents as unsupported); the same for exemplars; in runs without any failed send no item arrives twice. Quiescence is logical (barrier sample received, pending gauges 0, no request in flight); a wall-clock watchdog only makes a case inconclusive. Held on the observed schedules only; thread interleavings are whatever the scheduler (and -race in the race variant) produced.",
+		LevelNote: "Fault points are PRNG-sampled, not exhaustively enumerated. Trusted: the receiver's own log; relabel semantics of the three simple rule shapes are computed by hand. Reductions: timestamps enter only as values (the watcher's 'after start' test is by timestamp, so everything is stamped 'now', see DESIGN §10 item 13; a side class in a third of the cases without pre-start compactions appends three samples stamped 10 min before the start and reports their non-delivery under its own kind); head compactions are issued only at logical quiescence (a watcher that lags behind a WAL truncation loses data by design); sample_age_limit is off; duplicates are only forbidden in failure-free runs (statement); metadata delivery, the queue's failed/dropped counters (recorded in the evidence, used only, in cases that ran longer than 55 s, to tell a hard shutdown from a loss) and pre-start exemplars are not judged; the failure bursts stay far below the 2 min flush deadline, so hard shutdowns do not occur.",
 		DesignRef: "DESIGN.md §5 C40, §10 item 13",
 		Rule:      "case = one generated history + queue configuration + fault/reshard schedule; non-trivial iff at least 30 post-start samples of kept series were judged and at least one of {failed send, reshard accepted, WAL segment rotation} occurred; distinct by case index + schedule summary",
 		Assumptions: []string{
@@ -581,6 +586,7 @@ func run(c *core.Case) {
 	}
 	cfg := &config.Config{GlobalConfig: config.GlobalConfig{ExternalLabels: labels.FromMap(ext)}, RemoteWriteConfigs: []*config.RemoteWriteConfig{&rwc}}
 	db.SetWriteNotified(rws)
+	tBeforeApply := time.Now().UnixMilli() // the watcher starts after this instant
 	core.Must(rws.ApplyConfig(cfg), "ApplyConfig")
 
 	// wait until the watcher runs (its start time is fixed before it reads the first record)
@@ -596,6 +602,25 @@ func run(c *core.Case) {
 	time.Sleep(3 * time.Millisecond)
 	w.after = true
 	w.lastT = max(w.lastT, time.Now().UnixMilli()+1)
+
+	// side class (DESIGN §10 item 13): samples WRITTEN after the start but STAMPED before it
+	// (backfill / out-of-order style ingestion).  Only without pre-start compactions, otherwise the
+	// head itself rejects such timestamps.
+	var backfill *pseries
+	if preCompactions == 0 && r.IntN(3) == 0 {
+		backfill = &pseries{ls: labels.FromStrings("__name__", "backfill"), kind: "f"}
+		setExpected(backfill)
+		app := db.Appender(context.Background())
+		for i := 0; i < 3; i++ {
+			id := w.id()
+			t := tBeforeApply - 600_000 + int64(i)
+			_, err := app.Append(0, backfill.ls, t, float64(id))
+			core.Must(err, "append backfill sample")
+			backfill.items = append(backfill.items, item{id: id, t: t, kind: "f", after: true})
+		}
+		core.Must(app.Commit(), "commit backfill")
+		w.series = append(w.series, backfill)
+	}
 
 	// waitBarrier: logical quiescence.
 	waitBarrier := func(what string) bool {
@@ -632,9 +657,37 @@ func run(c *core.Case) {
 	}
 	reshardAsked, reshardAccepted, compactions, churn := 0, 0, 0, 0
 	longSlept := false
-	maxCompactions := r.IntN(4)
+	maxCompactions := r.IntN(5)
 	maxReshards := r.IntN(7)
 	normal := w.series[:len(w.series)-1]
+	if r.IntN(4) == 0 {
+		// checkpoint scenario: prefix compactions until the head writes a checkpoint that contains
+		// the (surviving) series of this history, then wait for the watcher's 5 s checkpoint
+		// ticker (garbageCollectSeries → SeriesReset) and keep writing to the survivors.
+		for i := 0; i < 6 && !longSlept; i++ {
+			w.appendBatch(normal, 2)
+			time.Sleep(2 * time.Millisecond)
+			w.appendBatch(normal, 1)
+			if !waitBarrier("before a scenario head compaction") {
+				return
+			}
+			h := db.Head()
+			cut := h.MinTime() + (h.MaxTime()-h.MinTime())/2
+			cpBefore, _, _ := wlog.LastCheckpoint(dir + "/wal")
+			core.Must(db.CompactHead(tsdb.NewRangeHead(h, h.MinTime(), cut)), "CompactHead")
+			compactions++
+			c.Count("prefix_head_compactions", 1)
+			if cpAfter, _, err := wlog.LastCheckpoint(dir + "/wal"); err == nil && cpAfter != cpBefore {
+				longSlept = true
+				time.Sleep(5600 * time.Millisecond)
+				c.Count("cases_waiting_for_watcher_checkpoint_gc", 1)
+				w.appendBatch(normal, 1)
+				time.Sleep(300 * time.Millisecond)
+				w.appendBatch(normal, 1)
+			}
+		}
+		c.Count("checkpoint_scenarios", 1)
+	}
 	for st := 0; st < steps; st++ {
 		switch x := r.IntN(20); {
 		case x < 11: // append to a few series
@@ -654,7 +707,7 @@ func run(c *core.Case) {
 				reshardAccepted += rws.VerifReshard(1 + r.IntN(5))
 			}
 		case x < 19: // churn series with long labels: fills WAL segments
-			n := 5 + r.IntN(25)
+			n := 15 + r.IntN(45)
 			var cs []*pseries
 			for i := 0; i < n; i++ {
 				churn++
@@ -675,19 +728,23 @@ func run(c *core.Case) {
 				compactions++
 				h := db.Head()
 				cut := h.MaxTime()
-				if r.IntN(3) != 0 && h.MaxTime()-h.MinTime() > 10 {
+				if r.IntN(6) != 0 && h.MaxTime()-h.MinTime() > 10 {
 					// compact only a prefix: series with newer samples stay in the head, keep their
 					// refs and go into the checkpoint (the watcher's SeriesReset must keep them)
 					cut = h.MinTime() + (h.MaxTime()-h.MinTime())*int64(1+r.IntN(3))/4
 					c.Count("prefix_head_compactions", 1)
 				}
+				cpBefore, _, _ := wlog.LastCheckpoint(dir + "/wal")
 				core.Must(db.CompactHead(tsdb.NewRangeHead(h, h.MinTime(), cut)), "CompactHead")
-				if f, _, _ := walSegments(dir); f > 0 && !longSlept {
-					// a checkpoint exists: let the watcher's 5 s checkpoint ticker fire once so that
-					// SeriesReset runs while the history continues
+				if cpAfter, _, err := wlog.LastCheckpoint(dir + "/wal"); err == nil && cpAfter != cpBefore && !longSlept {
+					// this compaction wrote a new checkpoint: let the watcher's 5 s checkpoint ticker fire
+					// once (SeriesReset) and then keep writing to the series that survived in the head
 					longSlept = true
-					time.Sleep(5300 * time.Millisecond)
+					time.Sleep(5600 * time.Millisecond)
 					c.Count("cases_waiting_for_watcher_checkpoint_gc", 1)
+					w.appendBatch(normal, 1)
+					time.Sleep(300 * time.Millisecond)
+					w.appendBatch(normal, 1)
 				}
 			}
 		}
@@ -795,7 +852,7 @@ func run(c *core.Case) {
 	judged := 0
 	lossBeyondExcuse := ""
 	for _, s := range w.series {
-		if s.dropped {
+		if s.dropped || s == backfill {
 			continue
 		}
 		for _, class := range []string{"samples", "exemplars"} {
@@ -881,6 +938,26 @@ func run(c *core.Case) {
 			}
 		}
 		c.Count("items_accepted_more_than_once_in_runs_with_failures", int64(dups))
+	}
+
+	// 4. side class: written after the start, stamped before it
+	if backfill != nil && !backfill.dropped {
+		got := map[int64]bool{}
+		for _, it := range received[backfill.expected] {
+			got[it.id] = true
+		}
+		missing := 0
+		for _, it := range backfill.items {
+			if !got[it.id] && !excused[it.id] {
+				missing++
+			}
+		}
+		c.Count("backfill_side_class_cases", 1)
+		if missing > 0 {
+			// predicate of the known finding: every undelivered sample of this case has a timestamp
+			// <= the wall clock before the watcher was started (all other series were judged above)
+			c.Violatef(kindBackfill, "%d of %d samples of series %s were appended AFTER the queue started (commit returned, watcher notified, later samples of other series were delivered) but never sent; all of them carry timestamps 10 min before the start (t=%d.., watcher started after %d): the watcher forwards a sample only if its timestamp is newer than its own start time\n%s", missing, len(backfill.items), backfill.ls, backfill.items[0].t, tBeforeApply, summary)
+		}
 	}
 
 	c.Count("post_start_items_judged", int64(judged))
